@@ -9,18 +9,7 @@ import PySMT.Proofs.C12Basic
 * `mem_typesO`: `get_types` = the definition, as a set (well-typed terms).
 -/
 namespace PySMT.Oracles
-open PySMT.Gen.Operators
-
-/-- a sort and everything it is built from -/
-def Ty.subsorts : Ty → List Ty
-  | .array i e => .array i e :: (Ty.subsorts i ++ Ty.subsorts e)
-  | .bool => [.bool] | .int => [.int] | .real => [.real] | .str => [.str]
-  | .bv w => [.bv w] | .custom n => [.custom n]
-
-/-- argument sorts -/
-def Ty.targs : Ty → List Ty
-  | .array i e => [i, e]
-  | _ => []
+open PySMT.Gen.Operators PySMT.Analyses
 
 def Ty.tsize : Ty → Nat
   | .array i e => 1 + Ty.tsize i + Ty.tsize e
@@ -55,12 +44,6 @@ theorem subsorts_trans : (t : Ty) → ∀ x ∈ Ty.subsorts t, ∀ y ∈ Ty.subs
     subst hx; exact hy
 
 /-! ## `expand_types` -/
-
-/-- lists built by appending, one at a time, a new sort whose argument sorts are already present:
-no duplicates, simpler sorts first -/
-inductive Good : List Ty → Prop
-  | nil : Good []
-  | snoc {l t} : Good l → t ∉ l → (∀ y ∈ Ty.targs t, y ∈ l) → Good (l ++ [t])
 
 theorem good_closed {l : List Ty} (h : Good l) : ∀ x ∈ l, ∀ y ∈ Ty.subsorts x, y ∈ l := by
   induction h with
@@ -196,27 +179,6 @@ theorem good_order {l : List Ty} (h : Good l) :
       exact hargs y hy
 
 /-! ## the walk -/
-
-/-- sorts written at one node: of a symbol, a function signature, bound variables, a constant, an
-array value -/
-def nodeSorts : Term → List Ty
-  | .node op args p =>
-    match op, p with
-    | .symbol, .sym s => if s.params.isEmpty then [s.ret] else []
-    | .function, .sym f => f.ret :: f.params
-    | .forall_, .qvars vs => vs.map (·.ret)
-    | .exists_, .qvars vs => vs.map (·.ret)
-    | .boolConst, _ => [.bool]
-    | .intConst, _ => [.int]
-    | .realConst, _ => [.real]
-    | .algebraicConst, _ => [.real]
-    | .strConst, _ => [.str]
-    | .bvConst, .bv _ w => [.bv w]
-    | .arrayValue, _ => (Term.node op args p).typeOf.toList
-    | _, _ => []
-
-/-- the sorts written in a formula -/
-def sortsWritten (t : Term) : List Ty := t.subterms.flatMap nodeSorts
 
 theorem typesWalk_node (op args p) : typesWalk (.node op args p) =
     typesNode op p (Term.node op args p).typeOf (args.map typesWalk) := by
